@@ -36,7 +36,7 @@ OUT=$WORK/$H
 MODE=${1:-plain}
 BIN=$OUT/h.test
 [ "$MODE" = race ] && BIN=$OUT/h.race.test
-if [ -x "$BIN" ]; then echo $OUT; exit 0; fi
+if [ -x "$BIN" ]; then touch $OUT; echo $OUT; exit 0; fi
 mkdir -p $OUT
 (
 flock 9
@@ -61,4 +61,9 @@ if [ ! -x "$BIN" ]; then
   mv $BIN.tmp $BIN
 fi
 ) 9>$OUT/.lock
+# keep the build directories of the 8 most recently used trees (disk is limited)
+ls -1dt $WORK/*/ 2>/dev/null | grep -v "^$WORK/bin/" | tail -n +9 | while read d; do
+  h=$(basename $d); [ "$h" = "$H" ] && continue
+  rm -rf "$d" "$WORK/bin/instr.$h"
+done
 echo $OUT
